@@ -26,6 +26,12 @@ CHECKS = {
  "C11": dict(cat="exploration", technique="reference-model monitor over store histories + wire-level conservation monitor (copies per group sum to 1) attributed by subscription identifiers",
    text="(a) every shared lookup of the subscription store compared with a reference table after each operation of seeded join/leave histories (mem and redis wrapper); (b) wire scenarios with joins, UNSUBSCRIBE, clean disconnect, abrupt close, take-over, clean-start reconnect, TerminateSession and offline persistent members; each group join carries a unique subscription identifier so every received copy is attributed to its group, and per message and matching group exactly one current member must receive it at min(published, granted) QoS, independently of non-shared subscriptions.",
    note="trusted: mqttx, refmodel.Match; copies destined to a member whose session ended while it was offline are unobservable and excluded; expiry-based leaving is covered only in thorough", ref="§5 C11"),
+ "C13": dict(cat="exploration", technique="wire-level limit monitors (packet size, alias table, quota) over all validator-accepted configurations",
+   text="For every validator-accepted combination of the four limits (thorough: all 225) scripted v5 clients exercise the advertised Topic Alias Maximum, Receive Maximum and Maximum Packet Size exactly at and just beyond the limit (0x94/0x93/0x95 expected beyond, survival expected within), and a subscriber declaring its own maxima checks the wire size and alias use of every packet it receives, resolving aliases with the spec's table; recovered broker panics are read from OnClosed.",
+   note="trusted: mqttx sizes; messages that fit only when aliased may be delivered or dropped; known finding: +3 bytes alias property after the size check", ref="§5 C13"),
+ "C18": dict(cat="exploration", technique="differential wire monitor: same MQTT byte stream under many WebSocket segmentations vs expected dialogue (cross-checked over TCP)",
+   text="A reference client byte stream is cut into WebSocket binary messages in every fixed chunk size 1..2100, every single cut position of a 3 KB stream, random cuts around the reader's 1024-byte buffer, packed and empty messages; the broker's replies (frame types, CONNACK, SUBACK, PUBACK ids, checksums of echoed payloads, PINGRESP) must be those of the unsegmented stream; text frames must be rejected without effect on broker state.",
+   note="trusted: gorilla/websocket client, mqttx", ref="§5 C18"),
 }
 
 def main():
